@@ -3,8 +3,8 @@
  "property": "C04",
  "standin": "B-xfail",
  "bound": "3 xfail marker placements x {create,fix | fix,update,trim | review(all n)} real sessions vs disable",
- "input": "xfail modules with --inline-snapshot=create,fix",
- "detail": "modified although every test is marked xfail: ['test_cls.py', 'test_mod.py']; outcomes differ from --inline-snapshot=disable: [('XFAIL', 'test_cls.py::TestX::test_a'), ('XFAIL', 'test_cls.py::TestX::test_b'), ('XFAIL', 'test_fn.py::test_a'), ('XFAIL', 'test_fn.py::test_b'), ('XFAIL', 'test_mod.py::test_a'), ('XFAIL', 'test_mod.py::test_b'), ('XPASS', 'test_cls.py::TestX::test_a'), ('XPASS', 'test_cls.py::TestX::test_b'), ('XPASS', 'test_mod.py::test_a'), ('XPASS', 'test_mod.py::test_b')] exit 0 vs [('XFAIL', 'test_cls.py::TestX::test_a'), ('XFAIL', 'test_cls.py::TestX::test_b'), ('XFAIL', 'test_fn.py::test_a'), ('XFAIL', 'test_fn.py::test_b'), ('XFAIL', 'test_mod.py::test_a'), ('XFAIL', 'test_mod.py::test_b')] exit 0\n -4,7 +4,7 @@                                                              |\n|                                                                              |\n|  pytestmark = pytest.mark.xfail                                              |\n|                                                                              |\n|  def test_a():                                                               |\n| -    assert 5 == snapshot(4)                                                 |\n| +    assert 5 == snapshot(5)                                                 |\n|                                                                              |\n|  def test_b():                                                               |\n| -    assert 5 in snapshot([3])                                               |\n| +    assert 5 in snapshot([3, 5])                                            |\n+------------------------------------------------------------------------------+\nThese changes will be applied, because you used fix\n\n\n=================================== XPASSES ====================================\n=========================== short test summary info ============================\nXFAIL test_cls.py::TestX::test_a\nXFAIL test_cls.py::TestX::test_b\nXFAIL test_fn.py::test_a\nXFAIL test_fn.py::test_b\nXFAIL test_mod.py::test_a\nXFAIL test_mod.py::test_b\nXPASS test_cls.py::TestX::test_a\nXPASS test_cls.py::TestX::test_b\nXPASS test_mod.py::test_a\nXPASS test_mod.py::test_b\n6 xfailed, 4 xpassed in 1.76s\n"
+ "input": "xfail modules with --inline-snapshot=fix,update,trim",
+ "detail": "modified although every test is marked xfail: ['test_cls.py', 'test_mod.py']; outcomes differ from --inline-snapshot=disable: [('XFAIL', 'test_cls.py::TestX::test_a'), ('XFAIL', 'test_cls.py::TestX::test_b'), ('XFAIL', 'test_fn.py::test_a'), ('XFAIL', 'test_fn.py::test_b'), ('XFAIL', 'test_mod.py::test_a'), ('XFAIL', 'test_mod.py::test_b'), ('XPASS', 'test_cls.py::TestX::test_a'), ('XPASS', 'test_cls.py::TestX::test_b'), ('XPASS', 'test_mod.py::test_a'), ('XPASS', 'test_mod.py::test_b')] exit 0 vs [('XFAIL', 'test_cls.py::TestX::test_a'), ('XFAIL', 'test_cls.py::TestX::test_b'), ('XFAIL', 'test_fn.py::test_a'), ('XFAIL', 'test_fn.py::test_b'), ('XFAIL', 'test_mod.py::test_a'), ('XFAIL', 'test_mod.py::test_b')] exit 0\n                     |\n+------------------------------------------------------------------------------+\nThese changes will be applied, because you used fix\n\n\u2500\u2500\u2500\u2500\u2500\u2500\u2500\u2500\u2500\u2500\u2500\u2500\u2500\u2500\u2500\u2500\u2500\u2500\u2500\u2500\u2500\u2500\u2500\u2500\u2500\u2500\u2500\u2500\u2500\u2500\u2500\u2500 Trim snapshots \u2500\u2500\u2500\u2500\u2500\u2500\u2500\u2500\u2500\u2500\u2500\u2500\u2500\u2500\u2500\u2500\u2500\u2500\u2500\u2500\u2500\u2500\u2500\u2500\u2500\u2500\u2500\u2500\u2500\u2500\u2500\u2500\n+-------------------------------- test_mod.py ---------------------------------+\n| @@ -7,4 +7,4 @@                                                              |\n|                                                                              |\n|      assert 5 == snapshot(5)                                                 |\n|                                                                              |\n|  def test_b():                                                               |\n| -    assert 5 in snapshot([3, 5])                                            |\n| +    assert 5 in snapshot([5])                                               |\n+------------------------------------------------------------------------------+\nThese changes will be applied, because you used trim\n\n\n=================================== XPASSES ====================================\n=========================== short test summary info ============================\nXFAIL test_cls.py::TestX::test_a\nXFAIL test_cls.py::TestX::test_b\nXFAIL test_fn.py::test_a\nXFAIL test_fn.py::test_b\nXFAIL test_mod.py::test_a\nXFAIL test_mod.py::test_b\nXPASS test_cls.py::TestX::test_a\nXPASS test_cls.py::TestX::test_b\nXPASS test_mod.py::test_a\nXPASS test_mod.py::test_b\n6 xfailed, 4 xpassed in 1.36s\n"
 }
 """
 
@@ -15,7 +15,7 @@ files = {'test_fn.py': 'import pytest\nfrom inline_snapshot import snapshot\n\n@
 for k, v in files.items():
     (d / k).write_text(v)
 env = {k: v for k, v in os.environ.items() if k not in ('CI', 'bamboo.buildKey', 'BUILD_ID', 'BUILD_NUMBER', 'BUILDKITE', 'CIRCLECI', 'CONTINUOUS_INTEGRATION', 'GITHUB_ACTIONS', 'HUDSON_URL', 'JENKINS_URL', 'TEAMCITY_VERSION', 'TRAVIS', 'PYCHARM_HOSTED', 'INLINE_SNAPSHOT_DEFAULT_FLAGS')}
-p = subprocess.run([sys.executable, "-m", "pytest", "-p", "no:cacheprovider", "-q", "-rA", "--inline-snapshot=create,fix"], cwd=d, env=env, capture_output=True, text=True)
+p = subprocess.run([sys.executable, "-m", "pytest", "-p", "no:cacheprovider", "-q", "-rA", "--inline-snapshot=fix,update,trim"], cwd=d, env=env, capture_output=True, text=True)
 print(p.stdout[-1500:])
 for k, v in files.items():
     assert (d / k).read_text() == v, k + " was modified although every test in it is marked xfail"
